@@ -221,6 +221,104 @@ Proof.
   apply G. exact H.
 Qed.
 
+(* ---------- the easy half of locality ---------- *)
+(* A linearization of the whole history against the map specification projects to a
+   linearization of every key's sub-history against the register specification: what the
+   checker demands per key is implied by what C06_linearizable proves of the model. (The
+   converse, Herlihy & Wing's locality theorem, is not proved here.) *)
+
+Lemma Permutation_filter_ : forall (A : Type) (f : A -> bool) l l',
+  Permutation l l' -> Permutation (filter f l) (filter f l').
+Proof.
+  intros A f l l' H. induction H; cbn [filter].
+  - constructor.
+  - destruct (f x); [apply perm_skip|]; exact IHPermutation.
+  - destruct (f x), (f y); try apply Permutation_refl. apply perm_swap.
+  - eapply Permutation_trans; eassumption.
+Qed.
+
+Lemma FOP_filter : forall (A : Type) (R : A -> A -> Prop) (f : A -> bool) l,
+  ForallOrdPairs R l -> ForallOrdPairs R (filter f l).
+Proof.
+  intros A R f l H. induction H as [|a l Ha Hl IH]; cbn [filter]; [constructor|].
+  destruct (f a); [|exact IH]. constructor; [|exact IH].
+  rewrite Forall_forall in *. intros x Hx. apply filter_In in Hx. apply Ha. tauto.
+Qed.
+
+Lemma flat_app_ : forall a b, flat (a ++ b) = flat a ++ flat b.
+Proof. intros. unfold flat. apply flat_map_app. Qed.
+
+Lemma last_effect_app_ : forall k a b,
+  last_effect k (a ++ b) =
+  match last_effect k b with Some x => Some x | None => last_effect k a end.
+Proof.
+  intros k a b. induction a as [|[k' v] a IH]; cbn [app last_effect].
+  - destruct (last_effect k b); reflexivity.
+  - rewrite IH. destruct (last_effect k b); reflexivity.
+Qed.
+
+Lemma spec_get_put : forall w k v k',
+  spec_get (w ++ [WPut k v]) k' = if beq k k' then Some v else spec_get w k'.
+Proof.
+  intros w k v k'. unfold spec_get, latest. rewrite flat_app_, last_effect_app_.
+  unfold flat at 1. cbn [flat_map effects app last_effect]. destruct (beq k k'); reflexivity.
+Qed.
+
+Lemma spec_get_del : forall w k k',
+  spec_get (w ++ [WDel k]) k' = if beq k k' then None else spec_get w k'.
+Proof.
+  intros w k k'. unfold spec_get, latest. rewrite flat_app_, last_effect_app_.
+  unfold flat at 1. cbn [flat_map effects app last_effect]. destruct (beq k k'); reflexivity.
+Qed.
+
+(* one step of the map specification, seen from key k *)
+Lemma spec_apply_project : forall w o w' k,
+  spec_apply w o = Some w' ->
+  if beq (o_key o) k
+  then reg_apply (spec_get w k) o = Some (spec_get w' k)
+  else spec_get w' k = spec_get w k.
+Proof.
+  intros w o w' k H. unfold spec_apply in H. unfold reg_apply.
+  destruct (beq (o_key o) k) eqn:B.
+  - apply beq_true_iff in B. subst k.
+    destruct (o_kind o) as [v| |], (o_res o) as [| | |rv|]; try discriminate;
+      try (injection H as <-; rewrite ?spec_get_put, ?spec_get_del, ?beq_refl; reflexivity).
+    + destruct (obeq (spec_get w (o_key o)) (Some rv)); [|discriminate]. injection H as <-. reflexivity.
+    + destruct (obeq (spec_get w (o_key o)) None); [|discriminate]. injection H as <-. reflexivity.
+  - destruct (o_kind o) as [v| |], (o_res o) as [| | |rv|]; try discriminate;
+      try (injection H as <-; rewrite ?spec_get_put, ?spec_get_del, ?B; reflexivity).
+    + destruct (obeq (spec_get w (o_key o)) (Some rv)); [|discriminate]. injection H as <-. reflexivity.
+    + destruct (obeq (spec_get w (o_key o)) None); [|discriminate]. injection H as <-. reflexivity.
+Qed.
+
+Lemma legal_project : forall l w k,
+  legal _ spec_apply w l -> legal _ reg_apply (spec_get w k) (key_ops k l).
+Proof.
+  induction l as [|o l IH]; intros w k H; cbn [legal key_ops filter] in *; [exact I|].
+  destruct (spec_apply w o) as [w'|] eqn:A; [|contradiction].
+  pose proof (spec_apply_project w o w' k A) as P.
+  destruct (beq (o_key o) k).
+  - cbn [legal]. rewrite P. apply IH. exact H.
+  - rewrite <- P. apply IH. exact H.
+Qed.
+
+Theorem linearizable_projects : forall w0 h,
+  linearizable w0 h -> forall k, linearizable_reg (spec_get w0 k) (key_ops k h).
+Proof.
+  intros w0 h (l & (dropped & HP & HD) & HR & HL) k.
+  exists (key_ops k l). split; [|split].
+  - exists (key_ops k dropped). split.
+    + unfold key_ops. rewrite <- filter_app. apply Permutation_filter_. exact HP.
+    + rewrite Forall_forall in *. intros o Ho. apply filter_In in Ho. apply HD. tauto.
+  - apply FOP_filter. exact HR.
+  - apply legal_project. exact HL.
+Qed.
+
+(* from an empty database every key starts absent: exactly what lin_check assumes *)
+Corollary linearizable_per_key_of_linearizable : forall h,
+  linearizable [] h -> linearizable_per_key h.
+Proof. intros h H k. exact (linearizable_projects [] h H k). Qed.
+
 (* ---------- examples (non-vacuity) ---------- *)
 Module HistExamples.
   Definition k1 : bytes := [107; 49].
